@@ -65,6 +65,12 @@ def py_values(thorough):
                 pass
     for dd, ss, us in itertools.product([0, 1, -1, 400], [0, 1, 59, 86399], [0, 1, 999999]):
         out.append(("timedelta", timedelta(days=dd, seconds=ss, microseconds=us)))
+    # every combination of "absent / units / tens / boundary" per field (the lexical form is assembled field by field)
+    for sign, dd, hh, mi, ss, us in itertools.product([1, -1], [0, 1, 10, 400], [0, 1, 10, 23], [0, 1, 10, 59], [0, 1, 9, 10, 20, 50, 59], [0, 1, 100000, 500000, 999990]):
+        out.append(("timedelta", sign * timedelta(days=dd, hours=hh, minutes=mi, seconds=ss, microseconds=us)))
+    for yy, mm, dd, ss in itertools.product([0, 1, 10, 100], [0, 1, 10, 12, 13, 100], [0, 1, 10], [0, 1, 10, 60, 600, 3600, 36000, 86400]):
+        if (yy, mm, dd, ss) not in {(a, b, c, d) for a in (0, 1) for b in (0, 1, 13) for c in (0, 1) for d in (0, 1)}:
+            out.append(("Duration", (yy, mm, dd, ss)))
     for yy, mm, dd, ss in itertools.product([0, 1, -1], [0, 1, 13], [0, 1], [0, 1]):
         if yy < 0 and (mm or dd or ss):
             continue  # an XSD duration has one sign: mixed-sign Durations are not supported values
@@ -185,6 +191,21 @@ def lexical_cases(thorough):
     for dt in ("duration", "dayTimeDuration", "yearMonthDuration"):
         for s in durs:
             out.append((dt, s))
+    # field products: each designator absent / 0 / units / tens / hundreds, seconds also with fractions
+    ns = [None, "0", "1", "10", "100"]
+    for sign, y, mo, d, h, mi, sec in itertools.product(["", "-"], ns[:4], ns[:4], ns[:4], ns[:4], ns[:4], [None, "0", "1", "10", "20", "10.0", "1.5", "0.10", "100", "59.999999"]):
+        if not thorough and sum(x is not None for x in (y, mo, d, h, mi, sec)) > 3:
+            continue
+        date_part = "".join(v + k for v, k in ((y, "Y"), (mo, "M"), (d, "D")) if v is not None)
+        time_part = "".join(v + k for v, k in ((h, "H"), (mi, "M"), (sec, "S")) if v is not None)
+        if not date_part and not time_part:
+            continue
+        lex = sign + "P" + date_part + ("T" + time_part if time_part else "")
+        out.append(("duration", lex))
+        if y is None and mo is None:
+            out.append(("dayTimeDuration", lex))
+        if not time_part and d is None:
+            out.append(("yearMonthDuration", lex))
     for s in ["", "0A", "0a", "0", "0G", "0A1b", " 0A ", "0A 1B"]:
         out.append(("hexBinary", s))
     for s in ["", "AA==", "AA", "AAA=", "AAAA", "!", "AA= =", "QUJD", "QUI=", "QQ==", "QR==", " QUJD "]:
